@@ -434,3 +434,15 @@ fn reconcile_fragments(parent: &web_sys::Node, a: &mut [web_sys::Node], b: &[web
         }
     }
 }
+
+/// Verification hook (`--cfg sycamore_verif_dom`): add-only public entry point that simply calls
+/// the private [`reconcile_fragments`].
+#[cfg(sycamore_verif_dom)]
+#[doc(hidden)]
+pub fn __verif_reconcile_fragments(
+    parent: &web_sys::Node,
+    a: &mut [web_sys::Node],
+    b: &[web_sys::Node],
+) {
+    reconcile_fragments(parent, a, b)
+}
